@@ -34,6 +34,16 @@ def label : Dom → String
   | elfsym true m => s!"STT_@{m}"
   | elfsym false m => s!"STB_@{m}"
 
+/-- the domain a protocol label names -/
+def ofLabel (s : String) : Dom :=
+  if s = "dec" then dec else if s = "hex" then hex else if s = "oct" then oct else if s = "bin" then bin
+  else if s = "bool" then bool else if s = "T_" then slot else if s = "pos" then pos
+  else if s = "Dwarf_Address" then addr else if s = "Dwarf_Off" then off else if s = "line_number" then lineno
+  else if s = "column_number" then colno else if s = "Dwarf_Abbrev_code" then abbrevcode
+  else if s.startsWith "STT_@" then elfsym true ((s.drop 5).toString.toNat?.getD 0)
+  else if s.startsWith "STB_@" then elfsym false ((s.drop 5).toString.toNat?.getD 0)
+  else named s
+
 /-- `safe_arith ()` -/
 def safeArith : Dom → Bool
   | dec | hex | oct | bin | pos | addr | off | lineno | colno | abbrevcode => true
